@@ -76,22 +76,28 @@ Section Case.
     if String.eqb owner (mi_name (ic_target k)) then mi_entries (ic_target k)
     else match find (fun m => String.eqb (mi_name m) owner) (ic_imports k) with Some m => mi_entries m | None => [] end.
 
-  (* __resolve_target_and_ir: a Func symbol that is (equal to) a key of the TARGET file's IR is taken from there,
-     whichever module the call sits in (symbol equality = name and interface); otherwise from the module the symbol
-     was defined in.  __resolve_real_class_target: the first class of that NAME, target file first, then the
-     imported modules in the order of import_irs. *)
+  (* __resolve_target_and_ir: a Func symbol is taken from the TARGET file's IR only when it is (equal to) one of its
+     keys AND was defined in the target file - the file may also have been analysed as an imported module, then
+     both entries are the same definition; otherwise from the module the symbol was defined in.
+     __resolve_real_class_target: the classes of that NAME, target file first, then the imported modules in the
+     order of import_irs; among them the first one defined in the calling module's file, else the first. *)
+  Definition origin_of_owner (owner : string) : string :=
+    if String.eqb owner (mi_name (ic_target k)) then mi_origin (ic_target k)
+    else match find (fun m => String.eqb (mi_name m) owner) (ic_imports k) with Some m => mi_origin m | None => "" end.
   Definition func_owner (owner nm : string) : string :=
     match find_entry (mi_entries (ic_target k)) nm KFunc, find_entry (entries_of owner) nm KFunc with
-    | Some te, Some oe => if iface_eqb (fe_iface te) (fe_iface oe) then mi_name (ic_target k) else owner
+    | Some te, Some oe =>
+      if iface_eqb (fe_iface te) (fe_iface oe) && String.eqb (origin_of_owner owner) (mi_origin (ic_target k))
+      then mi_name (ic_target k) else owner
     | _, _ => owner
     end.
+  Definition has_class (nm : string) (m : mod_in) : bool :=
+    match find_entry (mi_entries m) nm KClass with Some _ => true | None => false end.
   Definition class_owner (owner nm : string) : string :=
-    match find_entry (mi_entries (ic_target k)) nm KClass with
-    | Some _ => mi_name (ic_target k)
-    | None => match find (fun m => match find_entry (mi_entries m) nm KClass with Some _ => true | None => false end) (ic_imports k) with
-              | Some m => mi_name m
-              | None => owner
-              end
+    let cands := filter (has_class nm) (ic_target k :: ic_imports k) in
+    match find (fun m => String.eqb (mi_origin m) (origin_of_owner owner)) cands with
+    | Some m => mi_name m
+    | None => match cands with m :: _ => mi_name m | [] => owner end
     end.
 
   Definition link_t (owner : string) (t : option sym) : option sym :=
